@@ -148,8 +148,10 @@ def sh2(prog, rr):
     for f in prog.funcs:
         if f.module.name in ("vsc.impl.ctor",):
             continue
+        from sa.ir import find_local
+        blocks = set(find_local(f.node, lambda v: isinstance(v, ast.Call) and (dotted(v.func) or "").endswith("ConstraintBlockModel")))
         pushes = [n for n in walk_local(f.node) if isinstance(n, ast.Call) and call_name(n) == "push_constraint_scope" and n.args
-                  and isinstance(n.args[0], (ast.Name, ast.Call)) and ("ConstraintBlockModel" in norm(n.args[0]) or norm(n.args[0]) == "block")]
+                  and isinstance(n.args[0], (ast.Name, ast.Call)) and ("ConstraintBlockModel" in norm(n.args[0]) or norm(n.args[0]) in blocks)]
         if not pushes:
             continue
 
@@ -208,15 +210,20 @@ def sh2(prog, rr):
 # --------------------------------------------------------------------------------------- CV4
 @rule("CV4", ["C10"], "covergroup.sample copies every argument into the model field of the same index before sampling", engine="SAI", floor=2)
 def cv4(prog, rr):
-    cands = [f for f in prog.funcs if f.name == "sample" and f.module.name == "vsc.coverage" and any(
-        isinstance(n, ast.Call) and norm(n.func) == "model.sample" for n in walk_local(f.node))]
+    from sa.ir import find_local
+
+    def model_sample_calls(g):
+        ms = set(find_local(g.node, lambda v: norm(v) == "self.get_model()"))
+        return [n for n in walk_local(g.node) if isinstance(n, ast.Call) and isinstance(n.func, ast.Attribute) and n.func.attr == "sample"
+                and isinstance(n.func.value, ast.Name) and n.func.value.id in ms]
+    cands = [f for f in prog.funcs if f.name == "sample" and f.module.name == "vsc.coverage" and model_sample_calls(f)]
     rr.require(cands, "covergroup.sample not found")
     f = cands[0]
     loops = [lp for lp in walk_local(f.node) if isinstance(lp, ast.For) and "range(len(args))" in norm(lp.iter)]
     rr.require(loops, "argument copy loop not found in covergroup.sample")
     lp = loops[0]
     iv = norm(lp.target)
-    ms = next(n for n in walk_local(f.node) if isinstance(n, ast.Call) and norm(n.func) == "model.sample")
+    ms = model_sample_calls(f)[0]
     rr.inst("copy loop line %d, model.sample line %d" % (lp.lineno, ms.lineno))
     if ms.lineno < lp.end_lineno:
         rr.finding(f, ms, "covergroup.sample", "CV4: the model is sampled before the arguments are copied into its fields")
